@@ -186,7 +186,7 @@ type bench struct {
 	stepMu   sync.Mutex
 	step     string
 
-	lastSnap atomic.Value // rpc.VerifConnState
+	lastSnap atomic.Value       // rpc.VerifConnState
 	extra    func() interface{} // case-specific part of the replay input
 
 	closeOnce  sync.Once
@@ -200,7 +200,8 @@ type benchOpts struct {
 	deadlines bool
 	plan      faultPlan
 	trigAt    int
-	noBoot    bool // Conn without a bootstrap capability
+	noBoot    bool          // Conn without a bootstrap capability
+	abortTO   time.Duration // Options.AbortTimeout (default abortTimeout)
 }
 
 func newBench(rec *common.Recorder, idx uint64, prop string, o benchOpts) *bench {
@@ -217,6 +218,9 @@ func newBench(rec *common.Recorder, idx uint64, prop string, o benchOpts) *bench
 	}
 	b.srv = newLocalServer(b)
 	opts := &rpc.Options{ErrorReporter: b.rep, AbortTimeout: abortTimeout}
+	if o.abortTO != 0 {
+		opts.AbortTimeout = o.abortTO
+	}
 	if !o.noBoot {
 		opts.BootstrapClient = b.srv.client()
 	}
